@@ -109,4 +109,12 @@ Definition evict (s : st) (g : N) : st :=
               else s
   | None => s
   end.
+(* the member performs the post-join key rotation (self_update + merge): the obligation of an active group is discharged *)
+Definition self_updated (s : st) (g : N) : st :=
+  match gget g (groups s) with
+  | Some r => if g_state r =? GS_ACTIVE
+              then set_groups s (aset N.eqb g (mkG (g_state r) (g_epoch r) (g_data r) (g_last r) false) (groups s))
+              else s
+  | None => s
+  end.
 Definition empty_st (kps0 : list (N * bool)) : st := mkSt [] [] [] [] kps0.
